@@ -1097,11 +1097,11 @@ first_for_expr:
             }
     |   constant '%' constant
             {
-                if ($3) $$ = $1 % $3; else yyerror("Modulo by zero");
+                if ($3) $$ = LPC_INT_MOD($1, $3); else yyerror("Modulo by zero");
             }
     |   constant '/' constant
             {
-                if ($3) $$ = $1 / $3; else yyerror("Division by zero");
+                if ($3) $$ = LPC_INT_DIV($1, $3); else yyerror("Division by zero");
             }
     |   '(' constant ')'
             {
@@ -1739,7 +1739,7 @@ add_error:
                             break;
                         }
                         $$ = $1;
-                        $1->v.number /= $3->v.number;
+                        $1->v.number = LPC_INT_DIV($1->v.number, $3->v.number);
                         break;
                     }
                     if ($3->kind == NODE_REAL) {
